@@ -554,6 +554,14 @@ where
         // remaining actions: the pool has to stay available until then
         let pool_alive = self.pool.lock().unwrap().clone();
         if let Some(pool) = pool_alive {
+            #[cfg(rs_store_verif)]
+            crate::verif::pt(
+                "stop.drain",
+                crate::verif::store_id(&self.metrics),
+                0,
+                None,
+                0,
+            );
             if cfg!(dev) {
                 pool.join();
             } else {
